@@ -494,3 +494,51 @@ Definition run_flat (c : world * fmt * nat) : list (list Z) :=
    observes, and the cycle cut happens in the root parent. *)
 Definition run_flat_h (c : world * fmt * nat * nat) : list (list Z) :=
   let '(c', hier) := c in run_flat c'.
+
+(* ------------------------------------------------------------------ *)
+(* Reading: the lookup of mapping features (feat_basin.Basin.basinmap,
+   core.__getitem__ / _get_basin_feature_data, with c5ad7bc and dad364d).
+
+   One dataset with its basin objects 0 .. n-1.  Loading the dataset behind
+   a mapped basin i needs the feature [needs i] (its basinmapN) of the
+   referring dataset itself; that feature is looked up like every other one:
+   in the events, then in the basins -- which may have to be loaded first.
+   While basin i is looking for its mapping feature it is `active`
+   (`_basinmap_lookup_active`): asking it again fails at once instead of
+   recursing.  What a loaded basin delivers ([gives]) comes from another
+   dataset object (a subtree of the model's tree, which is finite); it is a
+   parameter here.  None = out of fuel. *)
+Section Lookup.
+  Variable n : nat.                       (* number of basin objects *)
+  Variable innate : Z -> bool.            (* features in the events *)
+  Variable needs : nat -> option Z.       (* mapping feature of basin i *)
+  Variable gives : nat -> Z -> bool.      (* delivered by basin i once loaded *)
+
+  Fixpoint memn (x : nat) (l : list nat) : bool :=
+    match l with [] => false | y :: r => Nat.eqb x y || memn x r end.
+
+  Fixpoint lookup (fuel : nat) (active : list nat) (feat : Z) : option bool :=
+    match fuel with
+    | O => None
+    | S k =>
+        if innate feat then Some true
+        else
+          (fix try (bs : list nat) : option bool :=
+             match bs with
+             | [] => Some false
+             | i :: rest =>
+                 let loaded :=
+                     match needs i with
+                     | None => Some true
+                     | Some m =>
+                         if memn i active then Some false   (* the guard *)
+                         else lookup k (i :: active) m
+                     end in
+                 match loaded with
+                 | None => None
+                 | Some true => if gives i feat then Some true else try rest
+                 | Some false => try rest
+                 end
+             end) (seq 0 n)
+    end.
+End Lookup.
